@@ -36,7 +36,12 @@ def gen_ops():
     core.write_if_changed(core.GEN / "GenOps.v", ops.translate(core.PKG))
 
 
-ALL = [gen_share, gen_tables, gen_stats, gen_pragma, gen_ops]
+def gen_hash():
+    from pyt2coq import hashfmt
+    core.write_if_changed(core.GEN / "GenHash.v", hashfmt.translate(core.PKG))
+
+
+ALL = [gen_share, gen_tables, gen_stats, gen_pragma, gen_ops, gen_hash]
 
 
 def gen_all(strict=True):
